@@ -494,7 +494,7 @@ def run(pid: str, tier: str, seed: int, replay_file: str | None, only: str | Non
             "solver_seconds": {k: round(x, 2) for k, x in solver_time.items()},
             "symbolic_execution_seconds": round(sym_s, 2),
             "smt_wall_seconds": round(smt_s, 2),
-            "solvers": {"z3": z3.get_version_string(), "cvc5": "1.0.3 (/usr/bin/cvc5, consulted on z3 unknown)"},
+            "solvers": {"z3": z3.get_version_string(), "cvc5": "1.4.0 (python wheel via pyvc/cvc5_runner.py, consulted on z3 unknown)"},
             "cross_solver_check": dict(smt.LAST_STATS),
             "per_obligation": per_ob if len(per_ob) <= 400 else per_ob[:400],
             "repo": os.environ.get("VERIF_REPO", "/repo"),
